@@ -7,7 +7,7 @@ from onl.utils import Timer
 
 PROPERTY = "C19"
 CLAUSES = ["C19.noraise", "C19.fire", "C19.stop", "C19.restart", "C19.args", "C19.once"]
-RULE = ("one Timer (timeout 2|3, one-shot|auto-restart, args None|[7]|7|'ab') created at t=0; at every integer instant 1..H "
+RULE = ("one Timer (timeout 2|3, one-shot|auto-restart, args None|[7]|7|'ab'|0|[0,'']) created at t=0; at every integer instant 1..H "
         "an outside process may act before and after the timer's own event of that instant, and the callback may act at "
         "every firing; actions {nothing, stop(), restart(1), restart(2)} with <= B non-nothing actions; non-trivial = an "
         "action was taken at an expiry instant or from the callback; distinct = distinct (configuration, actions, firing log)")
@@ -17,8 +17,8 @@ ASSUMPTIONS = [
     "tau or the original timeout (the firing at r+tau itself is exact)",
 ]
 ACTS = ["nothing", "stop", ("restart", 1), ("restart", 2)]
-ARGS = [None, [7], 7, "ab"]
-WANT = [(), (7,), (7,), ("ab",)]
+ARGS = [None, [7], 7, "ab", 0, [0, ""]]
+WANT = [(), (7,), (7,), ("ab",), (0,), (0, "")]
 
 
 def plan(tier, seed):
@@ -43,7 +43,7 @@ def execute(ch, cfg):
     err = [None]
     # reference: set of (pending instant or None, stopped, period, lenient)
     ref = {"states": {(cfg["timeout"], False, cfg["timeout"], False)}, "in_cb": False}
-    tag = "Timer(%s,args=%s)" % ("auto-restart" if cfg["auto"] else "one-shot", ["None", "list", "scalar", "str"][cfg["args"]])
+    tag = "Timer(%s,args=%s)" % ("auto-restart" if cfg["auto"] else "one-shot", ["None", "list", "scalar", "str", "zero", "list-of-falsy"][cfg["args"]])
     bad = []
 
     def apply(action, now, slot):
